@@ -4,6 +4,7 @@ import (
 	"context"
 	"crypto/rand"
 	"fmt"
+	"github.com/wneessen/go-mail/smtp"
 	"io"
 	"strings"
 	"testing"
@@ -35,6 +36,9 @@ type C14Scenario struct {
 	// without an error, as an io.Reader may: every other Read delivers nothing. A nonce must
 	// still be made of fresh bytes.
 	RandShort bool `json:"randShort,omitempty"`
+	// Via "smtp": smtp.Client.Auth is called directly on a caller-made smtp.Client; the verdict
+	// is what Auth returns, with nothing of the mail package after it
+	Via string `json:"via,omitempty"`
 }
 
 type c14 struct{}
@@ -184,8 +188,41 @@ func (p *c14) Gen(seed uint64, i int, tier string) (any, bool) {
 			pp = pass + "x"
 		}
 	}
+	if strings.Contains(mech, "SCRAM") && sc.Equal && r.Chance(1, 6) {
+		// a password as it is typed on one keyboard and stored from another: sequences that the
+		// preparation step both RFC 4013 (SASLprep) and RFC 8265 (OpaqueString) demand maps to
+		// one and the same string — non-ASCII spaces to U+0020, base letter plus combining mark
+		// to the composed letter. The account holds the prepared form, the client is given the
+		// raw one; they are the same password.
+		raw := []string{"\u00a0", "\u3000", "\u2003", "a\u0308", "e\u0301", "o\u0302", "n\u0303"}
+		prepared := []string{" ", " ", " ", "\u00e4", "\u00e9", "\u00f4", "\u00f1"}
+		base := []rune(strings.Trim(pass, " "))
+		if len(base) == 0 {
+			base = []rune("x")
+		}
+		var rb, pb strings.Builder
+		for k, c := range base {
+			rb.WriteRune(c)
+			pb.WriteRune(c)
+			if k < len(base)-1 && r.Chance(1, 3) || k == 0 {
+				j := r.Intn(len(raw))
+				if k == 0 && j < 3 {
+					j += 3 // no blank at the edge
+				}
+				rb.WriteString(raw[j])
+				pb.WriteString(prepared[j])
+			}
+		}
+		pp, stored.Pass = rb.String(), pb.String()
+		sc.How = "equal-after-preparation"
+	}
 	sc.Client = ClientCfg{AuthType: mech, User: pu, Pass: pp, TLSPolicy: "none"}
 	sc.Server.Auth = stored
+	if !sc.Equal && r.Chance(1, 2) {
+		// go-mail sends the SASL cancel line after a refused exchange (inherited from net/smtp);
+		// servers refuse that stray line in different ways, none of which undoes the 535
+		sc.Server.Rules = append(sc.Server.Rules, refsmtpd.Rule{Verb: "*", Nth: 1, Action: refsmtpd.Action{Code: sim.Pick(r, []int{501, 502, 503, 501}), Text: "syntax error"}})
+	}
 	sc.Server.Caps = []string{"8BITMIME", authCaps(allMechs...)}
 	needTLS := strings.HasSuffix(mech, "PLUS") || mech == "PLAIN" || mech == "LOGIN" || mech == "CUSTOM-PLAIN" || mech == "CUSTOM-LOGIN" || (mech == "AUTODISCOVER" && r.Chance(1, 2))
 	if needTLS || r.Chance(1, 6) {
@@ -235,6 +272,12 @@ func (p *c14) Gen(seed uint64, i int, tier string) (any, bool) {
 		// the second connection resumes the TLS session of the first
 		sc.Client.SessionCache = true
 	}
+	switch mech {
+	case "CRAM-MD5", "SCRAM-SHA-1", "SCRAM-SHA-256", "PLAIN-NOENC", "LOGIN-NOENC":
+		if sc.Retry == "" && sc.Client.TLSPolicy == "none" && !sc.RandShort && r.Chance(1, 3) {
+			sc.Via = "smtp"
+		}
+	}
 	// the outcome must not depend on whether the dialogue is being logged
 	if r.Chance(1, 3) {
 		sc.Client.Debug = true
@@ -260,6 +303,34 @@ func (p *c14) Exec(t *testing.T, scAny any) Outcome {
 				old := rand.Reader
 				rand.Reader = &shortReader{r: old}
 				defer func() { rand.Reader = old }()
+			}
+			if sc.Via == "smtp" {
+				conn, _ := env.Dial(context.Background(), "tcp", "mx.sim.example:25")
+				c2, err := smtp.NewClient(conn, sc.Client.host())
+				if err != nil {
+					out.Infra = "greeting: " + err.Error()
+					return
+				}
+				if err := c2.Hello("client.sim.example"); err != nil {
+					out.Infra = "hello: " + err.Error()
+					return
+				}
+				var a smtp.Auth
+				switch sc.Client.AuthType {
+				case "CRAM-MD5":
+					a = smtp.CRAMMD5Auth(sc.Client.User, sc.Client.Pass)
+				case "SCRAM-SHA-1":
+					a = smtp.ScramSHA1Auth(sc.Client.User, sc.Client.Pass)
+				case "SCRAM-SHA-256":
+					a = smtp.ScramSHA256Auth(sc.Client.User, sc.Client.Pass)
+				case "PLAIN-NOENC":
+					a = smtp.PlainAuth("", sc.Client.User, sc.Client.Pass, sc.Client.host(), true)
+				default:
+					a = smtp.LoginAuth(sc.Client.User, sc.Client.Pass, sc.Client.host(), true)
+				}
+				calls = append(calls, env.Call("smtp.Client.Auth", func() error { return c2.Auth(a) }))
+				_ = c2.Close()
+				return
 			}
 			c, err := BuildClient(sc.Client, env.Dial, &CaptureLogger{})
 			if err != nil {
